@@ -51,7 +51,7 @@ impl<Req, Res, E> Bulkhead<Req, Res, E> {
         ensures
             (r matches Poll::Ready(Ok(_))) ==> final(self).inner.ready@,   // #ready_only_when_inner_ready [C20]
             r matches Poll::Ready(Err(e)) ==> e is Inner,   // #readiness_errors_surface_as_inner [C20]
-            final(self).semaphore == old(self).semaphore && final(self).config == old(self).config,   // #frame
+            final(self).semaphore == old(self).semaphore && final(self).config == old(self).config,   // #readiness_never_replaces_the_semaphore_or_the_configuration [C01,C07]
     //@body Bulkhead::poll_ready@Service
 
     pub fn call(&mut self, request: Req, clk: &mut Clock, Tracked(tr): Tracked<&mut Trace<Req, Res, E>>) -> (result: Result<Res, BulkheadServiceError<E>>)
